@@ -142,13 +142,14 @@ OpenPacketWith(l, stop, bc, g1, rdh, flt, padf) ==
       /\ UNCHANGED noff
 OpenPacket(l, stop, bc, g1) ==
    LET rdh == RdhOf(l, g[l].page, stop, bc) IN
-   \/ OpenPacketWith(l, stop, bc, g1, rdh, fault, FALSE)
-   \/ /\ Faults /\ fault.kind = "none" /\ Len(stream) > 0       \* not the very first packet of the input: its RDH0 is the preliminary check (C16)
-      /\ \/ \E f \in RdhFaultKinds : /\ RdhFaultApplies(f, l, g[l].page, stop)
-                                     /\ OpenPacketWith(l, stop, bc, g1, ApplyRdh(f.kind, rdh, l),
-                                                       [kind |-> f.kind, off |-> IF f.at = "rdh" THEN noff ELSE noff + 64, fam |-> f.fam, pending |-> f.at = "word"], FALSE)
-         \/ /\ Its      \* this packet's payload will end in more than 15 bytes of 0xFF
-            /\ OpenPacketWith(l, stop, bc, g1, rdh, [kind |-> "pad_over_15", off |-> noff, fam |-> "PAYLOAD", pending |-> TRUE], TRUE)
+   /\ \A k \in Links : ~g[k].open             \* packets are contiguous in the byte stream: one open packet at a time (links interleave packet-wise)
+   /\ \/ OpenPacketWith(l, stop, bc, g1, rdh, fault, FALSE)
+      \/ /\ Faults /\ fault.kind = "none" /\ Len(stream) > 0       \* not the very first packet of the input: its RDH0 is the preliminary check (C16)
+         /\ \/ \E f \in RdhFaultKinds : /\ RdhFaultApplies(f, l, g[l].page, stop)
+                                        /\ OpenPacketWith(l, stop, bc, g1, ApplyRdh(f.kind, rdh, l),
+                                                          [kind |-> f.kind, off |-> IF f.at = "rdh" THEN noff ELSE noff + 64, fam |-> f.fam, pending |-> f.at = "word"], FALSE)
+            \/ /\ Its      \* this packet's payload will end in more than 15 bytes of 0xFF
+               /\ OpenPacketWith(l, stop, bc, g1, rdh, [kind |-> "pad_over_15", off |-> noff, fam |-> "PAYLOAD", pending |-> TRUE], TRUE)
 
 OpenPage(l) == /\ ~g[l].done /\ ~g[l].open /\ g[l].page < MaxPages
                /\ \E bc \in BcDom : (g[l].page > 0 => bc = g[l].rbc) /\ OpenPacket(l, 0, bc, g[l])
